@@ -2,6 +2,7 @@
 
 use crate::dispatch::{MethodModel, MODEL};
 use crate::exec::{self, Apps, RunResult, TaskEnd};
+use crate::isolate::{Isolator, Kind, Scenario};
 use crate::oracle::{self, Twin, Violation};
 use crate::plan::{CallPlan, Plan, RunCfg, TaskPlan};
 use crate::sim::Ev;
@@ -399,7 +400,7 @@ pub fn evaluate(plan: &Plan, apps: &Apps, pool: &Pool, twin: bool, stats: Option
     v
 }
 
-fn sample_history(plan: &Plan, apps: &Apps) -> Value {
+pub fn sample_history(plan: &Plan, apps: &Apps) -> Value {
     let r = exec::run(plan, apps, 0, false);
     let mut lines = vec![];
     for ev in r.events.iter().take(70) {
@@ -533,7 +534,7 @@ fn minimise(plan: Plan, apps: &Apps, pool: &Pool, oracle_id: &'static str, twin:
     (best, execs)
 }
 
-fn plan_size(p: &Plan) -> Value {
+pub fn plan_size(p: &Plan) -> Value {
     json!({"tasks": p.tasks.len(), "calls": p.tasks.iter().map(|t| t.calls.len()).sum::<usize>(), "decisions": p.decisions.len(),
            "faults_enabled": ([p.cfg.p_cancel > 0, p.cfg.p_spurious > 0, p.cfg.leaf_panic_pm > 0].iter().filter(|x| **x).count())})
 }
@@ -650,39 +651,16 @@ pub fn check(args: &[String]) -> i32 {
     let mut lines = vec![];
     found.sort_by_key(|f| f.run_index);
     if let Some(f) = found.first() {
-        let oracle_id = f.violations[0].oracle;
-        let before = plan_size(&f.plan);
-        let (min_plan, execs) = minimise(f.plan.clone(), &apps, &pool, oracle_id, true);
-        let after = plan_size(&min_plan);
-        let vs = evaluate(&min_plan, &apps, &pool, true, None);
-        let v0 = vs.iter().find(|v| v.oracle == oracle_id).cloned().unwrap_or_else(|| f.violations[0].clone());
-        let mname = if v0.method != u16::MAX { MODEL[v0.method as usize].name } else { "-" };
-        let signature = format!("{oracle_id}:{mname}");
-        let path = verif.join("replays").join(format!("{property}-{seed}-{}-run{}.json", if UNIMOCK_BUILD { "unimock" } else { "default" }, f.run_index));
-        let doc = json!({
-            "property": property,
-            "engine": "gensim",
-            "build": if UNIMOCK_BUILD { "unimock" } else { "default" },
-            "seed": seed as i64,
-            "run_index": f.run_index,
-            "oracle": oracle_id,
-            "method": mname,
-            "violation": v0.message,
-            "all_violations": vs.iter().map(|v| json!({"oracle": v.oracle, "task": v.task, "message": v.message})).collect::<Vec<_>>(),
-            "plan": min_plan.to_json(),
-            "history": sample_history(&min_plan, &apps)["history_prefix"],
-            "minimised_from": {"before": before, "after": after, "executions": execs},
-            "replay": format!("./check {property} --replay {}", path.display()),
-        });
-        let _ = std::fs::create_dir_all(path.parent().unwrap());
-        let _ = std::fs::write(&path, serde_json::to_string_pretty(&doc).unwrap() + "\n");
-        if let Some(k) = known.iter().find(|k| k.property_id == property && k.status == "open" && k.signature == signature) {
-            println!("KNOWN-FINDING: property={property} {}", k.what);
-        } else {
-            reported += 1;
-            println!("gensim: {oracle_id} violated on `{mname}`: {}", v0.message);
-            println!("gensim: minimised {} -> {} in {} executions", doc["minimised_from"]["before"], doc["minimised_from"]["after"], execs);
-            lines.push(format!("VIOLATION property={property} replay={}", path.display()));
+        let kind = Kind::Oracle(f.violations[0].oracle.to_string());
+        if let Some(r) = isolate_and_write(&property, &pool, seed, seed_eff, &verif, kind, Some(f), (f.run_index + 1).clamp(200_000, 1_000_000)) {
+            if let Some(k) = known.iter().find(|k| k.property_id == property && k.status == "open" && k.signature == r.signature) {
+                println!("KNOWN-FINDING: property={property} {}", k.what);
+            } else {
+                reported += 1;
+                println!("gensim: {}", r.headline);
+                println!("gensim: {}", r.detail);
+                lines.push(format!("VIOLATION property={property} replay={}", r.path.display()));
+            }
         }
     }
 
@@ -885,30 +863,41 @@ pub fn replay(args: &[String]) -> i32 {
         }
     };
     let property = doc["property"].as_str().unwrap_or("").to_string();
-    let Some(pool) = pool_for(&property) else {
+    if pool_for(&property).is_none() {
         eprintln!("HARNESS-ERROR: unknown property in replay file");
         return 2;
-    };
+    }
     let want_unimock = doc["build"] == "unimock";
     if want_unimock != UNIMOCK_BUILD {
         eprintln!("HARNESS-ERROR: replay file is for the {} build", doc["build"]);
         return 2;
     }
-    if doc["crash"] == true {
-        return replay_crash(&doc, file);
+    let scd = &doc["scenario"];
+    let seed_eff: u64 = scd["seed_eff"].as_str().and_then(|s| s.parse().ok()).unwrap_or(0);
+    let sc = Scenario {
+        history_idx: scd["history_idx"].as_array().map(|a| a.iter().filter_map(|x| x.as_u64()).collect()).unwrap_or_default(),
+        history: scd["history"].as_array().map(|a| a.iter().map(Plan::from_json).collect()).unwrap_or_default(),
+        plan: Plan::from_json(&scd["plan"]),
+    };
+    let verif = PathBuf::from(arg_value(args, "--verif").unwrap_or_else(|| "/verif".into()));
+    let mut iso = Isolator::new(&property, seed_eff, &verif);
+    let out = iso.exec(&sc);
+    let _ = std::fs::remove_file(&iso.tmp);
+    println!("replay: scenario = {} earlier run(s) + the final plan, executed single-threaded in a fresh process", sc.history_idx.len() + sc.history.len());
+    for l in &out.trace {
+        println!("  {l}");
     }
-    let plan = Plan::from_json(&doc["plan"]);
-    let apps = Apps::new();
-    let vs = evaluate(&plan, &apps, &pool, true, None);
-    for l in sample_history(&plan, &apps)["history_prefix"].as_array().cloned().unwrap_or_default() {
-        println!("  {}", l.as_str().unwrap_or(""));
+    if let Some(sig) = out.died {
+        println!("replay: the process executing the scenario {}", if sig == 0 { "hung and was killed after the timeout".to_string() } else { format!("was killed by signal {sig}") });
+        println!("VIOLATION property={property} replay={file}");
+        return 1;
     }
-    if vs.is_empty() {
+    if out.violations.is_empty() {
         println!("replay: no violation (not reproduced on this tree)");
         0
     } else {
-        for v in &vs {
-            println!("replay: {} task {}: {}", v.oracle, v.task, v.message);
+        for v in &out.violations {
+            println!("replay: {} task {} `{}`: {}", v.0, v.1, v.2, v.3);
         }
         println!("VIOLATION property={property} replay={file}");
         1
@@ -916,74 +905,132 @@ pub fn replay(args: &[String]) -> i32 {
 }
 
 // ---------------------------------------------------------------------------
-// crash containment: a change that makes generated code overflow the stack,
-// abort (panic in drop while unwinding) or otherwise kill the process cannot
-// be caught in-process. `run.sh` calls `crash-triage` when the search process
-// dies by a signal: runs are a pure function of (seed, index), so the dying
-// run is found by executing index ranges in child processes, then minimised
-// with one child process per candidate plan.
+// isolation, triage, reporting (see isolate.rs)
 // ---------------------------------------------------------------------------
 
-/// `gensim range <ID> --seed S --from a --to b`: single-threaded, silent.
+/// `gensim range <ID> --seed S --from a --to b [--report --kind K]`:
+/// single-threaded sequential execution of runs a..b in this process.
 pub fn range(args: &[String]) -> i32 {
+    use std::io::Write;
     let Some(pool) = args.get(2).and_then(|p| pool_for(p)) else { return 2 };
     let seed: u64 = arg_value(args, "--seed").and_then(|s| s.parse().ok()).unwrap_or(0);
     let from: u64 = arg_value(args, "--from").and_then(|s| s.parse().ok()).unwrap_or(0);
     let to: u64 = arg_value(args, "--to").and_then(|s| s.parse().ok()).unwrap_or(0);
+    let report = args.iter().any(|a| a == "--report");
+    let kind = arg_value(args, "--kind").unwrap_or_default();
     let apps = Apps::new();
+    let stdout = std::io::stdout();
     for i in from..to {
+        if report && kind == "DEATH" {
+            let mut l = stdout.lock();
+            let _ = writeln!(l, "AT {i}");
+            let _ = l.flush();
+        }
         let mut rng = Rng::for_run(seed, i);
         let plan = gen_plan(&mut rng, &pool);
-        let _ = evaluate(&plan, &apps, &pool, true, None);
+        let v = evaluate(&plan, &apps, &pool, true, None);
+        if report && v.iter().any(|x| x.oracle == kind) {
+            println!("FOUND {i}");
+            return 1;
+        }
     }
     0
 }
 
-/// `gensim plan-exec <file>`: executes one plan (from a replay-style file).
-pub fn plan_exec(args: &[String]) -> i32 {
-    let Some(file) = args.get(2) else { return 2 };
-    let Some(doc) = std::fs::read_to_string(file).ok().and_then(|t| serde_json::from_str::<Value>(&t).ok()) else { return 2 };
-    let Some(pool) = doc["property"].as_str().and_then(pool_for) else { return 2 };
-    let plan = Plan::from_json(&doc["plan"]);
-    let apps = Apps::new();
-    let v = evaluate(&plan, &apps, &pool, true, None);
-    if v.is_empty() {
-        0
-    } else {
-        1
+pub struct Reported {
+    pub path: PathBuf,
+    pub signature: String,
+    pub headline: String,
+    pub detail: String,
+}
+
+/// Reproduce in a fresh process, minimise the scenario, write the replay file.
+#[allow(clippy::too_many_arguments)]
+pub fn isolate_and_write(property: &str, pool: &Pool, seed: u64, seed_eff: u64, verif: &Path, kind: Kind, found: Option<&Found>, upto: u64) -> Option<Reported> {
+    let mut iso = Isolator::new(property, seed_eff, verif);
+    let mut scenario: Option<Scenario> = None;
+    let mut class = "reproduced alone in a fresh process";
+    if let Some(f) = found {
+        let sc0 = Scenario { history_idx: vec![], history: vec![], plan: f.plan.clone() };
+        if iso.exec(&sc0).shows(&kind) {
+            scenario = Some(sc0);
+        }
     }
-}
-
-fn died_by_signal(status: &std::process::ExitStatus) -> Option<i32> {
-    use std::os::unix::process::ExitStatusExt;
-    status.signal()
-}
-
-fn child(exe: &Path, args: &[String], timeout_s: u64) -> Option<std::process::ExitStatus> {
-    let mut c = std::process::Command::new("timeout")
-        .arg("-k").arg("2").arg(timeout_s.to_string())
-        .arg(exe)
-        .args(args)
-        .stdout(std::process::Stdio::null())
-        .stderr(std::process::Stdio::null())
-        .spawn()
-        .ok()?;
-    c.wait().ok()
-}
-
-fn plan_dies(exe: &Path, property: &str, plan: &Plan, tmp: &Path) -> Option<i32> {
-    let doc = json!({"property": property, "plan": plan.to_json()});
-    std::fs::write(tmp, doc.to_string()).ok()?;
-    let st = child(exe, &["plan-exec".into(), tmp.display().to_string()], 5)?;
-    // `timeout` re-raises nothing: a signalled child shows as 128+sig; 124 / 137 = it hung
-    match (died_by_signal(&st), st.code()) {
-        (Some(s), _) => Some(s),
-        (None, Some(124)) | (None, Some(137)) => Some(0),
-        (None, Some(c)) if c >= 128 => Some(c - 128),
-        _ => None,
+    if scenario.is_none() {
+        // depends on earlier runs in the same process (or the process died): find the
+        // shortest deterministic single-threaded history 0..n that shows it
+        if let Some(n) = iso.find_prefix(pool, &kind, upto) {
+            let mut rng = Rng::for_run(seed_eff, n - 1);
+            let sc = Scenario { history_idx: (0..n - 1).collect(), history: vec![], plan: gen_plan(&mut rng, pool) };
+            if iso.exec(&sc).shows(&kind) {
+                class = "depends on process state left by earlier runs: reproduced as a history of runs in one fresh process";
+                scenario = Some(sc);
+            }
+        }
     }
+    let build = if UNIMOCK_BUILD { "unimock" } else { "default" };
+    let run_index = found.map(|f| f.run_index).unwrap_or(0);
+    let Some(sc) = scenario else {
+        // observed in the multi-threaded search process only
+        let f = found?;
+        let v0 = &f.violations[0];
+        let mname = if v0.method != u16::MAX { MODEL[v0.method as usize].name } else { "-" };
+        let path = verif.join("replays").join(format!("{property}-{seed}-{build}-run{run_index}-unisolated.json"));
+        let doc = json!({
+            "property": property, "engine": "gensim", "build": build, "seed": seed as i64, "run_index": run_index,
+            "oracle": v0.oracle, "method": mname, "violation": v0.message, "isolated": false,
+            "note": "observed in the multi-threaded search process; neither the plan alone nor the sequential history 0..=index reproduces it in a fresh process, so it depends on process-global state touched by runs executing concurrently on other worker threads. Exact replay is not guaranteed for this class.",
+            "scenario": {"seed_eff": seed_eff.to_string(), "history_idx": [], "history": [], "plan": f.plan.to_json()},
+            "replay": format!("./check {property} --replay {}", path.display()),
+        });
+        let _ = std::fs::create_dir_all(path.parent().unwrap());
+        let _ = std::fs::write(&path, serde_json::to_string_pretty(&doc).unwrap() + "\n");
+        return Some(Reported { path, signature: format!("{}:{mname}", v0.oracle), headline: format!("{} violated on `{mname}`: {}", v0.oracle, v0.message), detail: "not reproducible in isolation (cross-thread process state)".into() });
+    };
+    let before = json!({"history_runs": sc.history_idx.len() + sc.history.len(), "final": plan_size(&sc.plan)});
+    let min = iso.minimise(sc, &kind);
+    let out = iso.exec(&min);
+    let after = json!({"history_runs": min.history_idx.len() + min.history.len(), "final": plan_size(&min.plan)});
+    let (oracle_id, mname, message) = match &kind {
+        Kind::Death => {
+            let sig = out.died.unwrap_or(-1);
+            let mname = min.plan.tasks.first().and_then(|t| t.calls.first()).map(|c| MODEL[c.method as usize].name).unwrap_or("-").to_string();
+            let msg = if sig == 0 {
+                format!("a call of `{mname}` through its generated trait method never returns (the process had to be killed after a timeout; the executor and the corpus bodies are step-bounded)")
+            } else {
+                format!("the process was killed by signal {sig} (stack overflow / abort) while executing a call of `{mname}` through its generated trait method: the call never returns the original function's result")
+            };
+            ("O1".to_string(), mname, msg)
+        }
+        Kind::Oracle(o) => {
+            let v = out.violations.iter().find(|v| &v.0 == o).cloned().unwrap_or((o.clone(), 0, "-".into(), "violation no longer shown by the minimised scenario".into()));
+            (v.0, v.2, v.3)
+        }
+    };
+    let suffix = if kind == Kind::Death { "-crash" } else { "" };
+    let path = verif.join("replays").join(format!("{property}-{seed}-{build}-run{run_index}{suffix}.json"));
+    let doc = json!({
+        "property": property, "engine": "gensim", "build": build, "seed": seed as i64, "run_index": run_index,
+        "oracle": oracle_id, "method": mname, "violation": message, "isolated": true, "class": class,
+        "crash": kind == Kind::Death, "signal": out.died,
+        "all_violations": out.violations.iter().map(|v| json!({"oracle": v.0, "task": v.1, "method": v.2, "message": v.3})).collect::<Vec<_>>(),
+        "scenario": iso.scenario_json(&min),
+        "trace_of_final_plan": out.trace,
+        "minimised_from": {"before": before, "after": after, "child_process_executions": iso.executions},
+        "replay": format!("./check {property} --replay {}", path.display()),
+    });
+    let _ = std::fs::create_dir_all(path.parent().unwrap());
+    let _ = std::fs::write(&path, serde_json::to_string_pretty(&doc).unwrap() + "\n");
+    let _ = std::fs::remove_file(&iso.tmp);
+    Some(Reported {
+        path,
+        signature: format!("{oracle_id}:{mname}"),
+        headline: format!("{oracle_id} violated on `{mname}`: {message}"),
+        detail: format!("{class}; minimised {} -> {} in {} fresh-process executions", doc["minimised_from"]["before"], doc["minimised_from"]["after"], iso.executions),
+    })
 }
 
+/// Called by run.sh when the search process died by a signal or hung.
 pub fn crash_triage(args: &[String]) -> i32 {
     let t0 = simcore::real_now_s();
     let Some(property) = args.get(2).cloned() else { return 2 };
@@ -994,136 +1041,24 @@ pub fn crash_triage(args: &[String]) -> i32 {
     let verif = PathBuf::from(arg_value(args, "--verif").unwrap_or_else(|| "/verif".into()));
     let part = arg_value(args, "--part").unwrap_or_else(|| "first".into());
     let seed_eff = if UNIMOCK_BUILD { seed ^ 0x756e_696d_6f63_6b00 } else { seed };
-    let exe = std::env::current_exe().expect("current_exe");
-    let tmp = verif.join("scratch").join(format!("gensim-triage-{}.json", std::process::id()));
-    let _ = std::fs::create_dir_all(tmp.parent().unwrap());
-    println!("gensim: the search process died; locating the run in child processes (runs are a pure function of (seed, index))");
-    // doubling ranges until one dies
-    let dies_in = |from: u64, to: u64| -> bool {
-        let st = child(&exe, &["range".into(), property.clone(), "--seed".into(), seed_eff.to_string(), "--from".into(), from.to_string(), "--to".into(), to.to_string()], 3 + (to - from) / 20_000);
-        match st {
-            Some(st) => died_by_signal(&st).is_some() || st.code().map(|c| c >= 124).unwrap_or(false),
-            None => false,
-        }
-    };
-    let mut lo = 0u64;
-    let mut hi = 64u64;
-    let mut found = false;
-    while lo < 4_000_000 {
-        if dies_in(lo, hi) {
-            found = true;
-            break;
-        }
-        lo = hi;
-        hi *= 4;
-    }
-    if !found {
-        eprintln!("HARNESS-ERROR: the search process died but no single run reproduces the death in isolation");
-        return 2;
-    }
-    while hi - lo > 1 {
-        let mid = (lo + hi) / 2;
-        if dies_in(lo, mid) {
-            hi = mid;
-        } else {
-            lo = mid;
-        }
-    }
-    let index = lo;
-    let mut rng = Rng::for_run(seed_eff, index);
-    let plan = gen_plan(&mut rng, &pool);
-    let Some(sig) = plan_dies(&exe, &property, &plan, &tmp) else {
-        eprintln!("HARNESS-ERROR: run {index} does not die when executed alone");
+    println!("gensim: the search process died or hung; locating the run in fresh child processes (runs are a pure function of (seed, index))");
+    let Some(r) = isolate_and_write(&property, &pool, seed, seed_eff, &verif, Kind::Death, None, 2_000_000) else {
+        eprintln!("HARNESS-ERROR: the search process died but no sequential history of runs reproduces the death in a fresh process");
         return 2;
     };
-    // minimise: tasks, then calls
-    let mut best = plan.clone();
-    let mut execs = 0u64;
-    {
-        let tasks = best.tasks.clone();
-        let base = best.clone();
-        best.tasks = simcore::ddmin::ddmin(tasks, &mut |cand| {
-            if cand.is_empty() {
-                return false;
-            }
-            execs += 1;
-            let mut p = base.clone();
-            p.tasks = cand.to_vec();
-            plan_dies(&exe, &property, &p, &tmp).is_some()
-        });
-        for ti in 0..best.tasks.len() {
-            let calls = best.tasks[ti].calls.clone();
-            let base = best.clone();
-            best.tasks[ti].calls = simcore::ddmin::ddmin(calls, &mut |cand| {
-                if cand.is_empty() {
-                    return false;
-                }
-                execs += 1;
-                let mut p = base.clone();
-                p.tasks[ti].calls = cand.to_vec();
-                plan_dies(&exe, &property, &p, &tmp).is_some()
-            });
-        }
-        let mut p = best.clone();
-        p.decisions.clear();
-        p.cfg.p_cancel = 0;
-        p.cfg.p_spurious = 0;
-        p.cfg.leaf_panic_pm = 0;
-        execs += 1;
-        if plan_dies(&exe, &property, &p, &tmp).is_some() {
-            best = p;
-        }
-    }
-    let _ = std::fs::remove_file(&tmp);
-    let mname = best.tasks.first().and_then(|t| t.calls.first()).map(|c| MODEL[c.method as usize].name).unwrap_or("-");
-    let path = verif.join("replays").join(format!("{property}-{seed}-{}-run{index}-crash.json", if UNIMOCK_BUILD { "unimock" } else { "default" }));
-    let message = if sig == 0 {
-        format!("a call of `{mname}` through its generated trait method never returns (the process had to be killed after a timeout; the executor and the corpus bodies are step-bounded)")
-    } else {
-        format!("the process was killed by signal {sig} (stack overflow / abort) while executing a call of `{mname}` through its generated trait method: the call never returns the original function's result")
-    };
-    let doc = json!({
-        "property": property, "engine": "gensim", "build": if UNIMOCK_BUILD { "unimock" } else { "default" },
-        "seed": seed as i64, "run_index": index, "oracle": "O1", "crash": true, "signal": sig, "method": mname,
-        "violation": message, "plan": best.to_json(),
-        "minimised_from": {"before": plan_size(&plan), "after": plan_size(&best), "executions": execs},
-        "replay": format!("./check {property} --replay {}", path.display()),
-    });
-    let _ = std::fs::create_dir_all(path.parent().unwrap());
-    let _ = std::fs::write(&path, serde_json::to_string_pretty(&doc).unwrap() + "\n");
-    println!("gensim: O1 violated on `{mname}`: {message}");
-    println!("gensim: minimised {} -> {} in {} child executions", doc["minimised_from"]["before"], doc["minimised_from"]["after"], execs);
-    // evidence for this (violating) run: what the triage itself executed
+    println!("gensim: {}", r.headline);
+    println!("gensim: {}", r.detail);
+    let doc: Value = std::fs::read_to_string(&r.path).ok().and_then(|t| serde_json::from_str(&t).ok()).unwrap_or(json!({}));
+    let execs = doc["minimised_from"]["child_process_executions"].as_u64().unwrap_or(2);
     let cov = json!({
-        "evaluations": index + 1 + execs,
-        "distinct_nontrivial": 2.max(execs),
-        "rule": "crash triage: the search process died by a signal; index ranges [0,64), [64,256), ... were re-executed in single-threaded child processes until one died, the dying run was bisected and its plan minimised with one child process per candidate. evaluations = runs re-executed before the dying one + candidate plans; distinct_nontrivial = candidate plans executed in isolation (each a distinct plan containing the dying call).",
-        "samples": [doc["plan"].clone()],
-        "crash": {"signal": sig, "run_index": index, "method": mname},
+        "evaluations": execs.max(1),
+        "distinct_nontrivial": execs.max(2),
+        "rule": "crash/hang triage: the search process died; prefixes of the run sequence were re-executed single-threaded in fresh child processes until one died, then the scenario (history + dying plan) was minimised with one child process per candidate. evaluations = distinct_nontrivial = candidate scenarios executed in fresh processes (each a distinct scenario containing the dying call).",
+        "samples": [doc["scenario"].clone()],
+        "crash": {"signal": doc["signal"].clone(), "method": doc["method"].clone()},
         "exhaustive": false,
     });
     let _ = write_evidence(&verif.join("evidence").join(format!("{property}.json")), &property, tier, seed, &pool, cov, simcore::real_now_s() - t0, 1, &part);
-    println!("VIOLATION property={property} replay={}", path.display());
+    println!("VIOLATION property={property} replay={}", r.path.display());
     1
-}
-
-pub fn replay_crash(doc: &Value, file: &str) -> i32 {
-    let property = doc["property"].as_str().unwrap_or("").to_string();
-    let exe = std::env::current_exe().expect("current_exe");
-    let plan = Plan::from_json(&doc["plan"]);
-    let tmp = PathBuf::from(format!("/verif/scratch/gensim-replay-{}.json", std::process::id()));
-    let _ = std::fs::create_dir_all(tmp.parent().unwrap());
-    let r = plan_dies(&exe, &property, &plan, &tmp);
-    let _ = std::fs::remove_file(&tmp);
-    match r {
-        Some(sig) => {
-            println!("replay: the process executing the plan {}", if sig == 0 { "hung and was killed after the timeout".to_string() } else { format!("was killed by signal {sig}") });
-            println!("VIOLATION property={property} replay={file}");
-            1
-        }
-        None => {
-            println!("replay: the plan executes without the process dying (not reproduced on this tree)");
-            0
-        }
-    }
 }
